@@ -130,6 +130,36 @@ fn skip_trailing(s: &str, mut p: usize) -> usize {
         return p;
     }
 }
+/// does rule `name` match a prefix of s[loc..]?  (None: not a rule of the grammar / silent)
+fn rule_matches_at(name: &str, s: &str, loc: usize) -> Option<bool> {
+    let pos = Position::new(s, loc)?;
+    macro_rules! d { ($($r:ident),*) => { match name { $( stringify!($r) => Some(t::pairs::$r::try_check_partial(pos).is_ok()), )* "EOI" => Some(loc == s.len()), _ => None } } }
+    d!(a, b, seq, seq_atomic, seq_compound, seq_nonatomic, nest, nest2, rep, rep_n, choice, opt, pred, usesilent, stack, insens, nl, soi, anyrule, atomic_via_silent, compound_via_silent, insens2, untilc)
+}
+/// C10 truthfulness: every rule listed as expected fails at the location, every rule listed as unexpected matches there
+fn truthful(msg: &str, s: &str, loc: usize) -> Result<(), String> {
+    for line in msg.lines() {
+        let l = line.trim();
+        let lower = l.to_lowercase();
+        for (kw, want) in [("unexpected [", true), ("expected [", false)] {
+            let mut from = 0;
+            while let Some(i) = lower[from..].find(kw) {
+                let st = from + i;
+                // skip the "expected [" that is the tail of "unexpected ["
+                if kw == "expected [" && st >= 2 && &lower[st - 2..st] == "un" { from = st + kw.len(); continue; }
+                let lst = st + kw.len();
+                let end = match l[lst..].find(']') { Some(e) => lst + e, None => break };
+                for name in l[lst..end].split(',').map(|x| x.trim()).filter(|x| !x.is_empty()) {
+                    if let Some(m) = rule_matches_at(name, s, loc) {
+                        if m != want { return Err(format!("{} is listed as {} at byte {} but it {} there", name, if want { "unexpected" } else { "expected" }, loc, if m { "matches" } else { "does not match" })); }
+                    }
+                }
+                from = end;
+            }
+        }
+    }
+    Ok(())
+}
 fn preorder(t: &Token<'_, t::Rule>, depth: usize, out: &mut Vec<(String, usize, usize, usize)>) {
     out.push((format!("{:?}", t.rule), t.span.start(), t.span.end(), depth));
     for c in &t.children { preorder(c, depth + 1, out); }
@@ -175,6 +205,7 @@ macro_rules! check_rule {
             let txt = format!("{}", e);
             let loc = match e.location { pest::error::InputLocation::Pos(p) => p, pest::error::InputLocation::Span((p, _)) => p };
             if !(loc <= s.len() && s.is_char_boundary(loc)) { return Err(format!("{} detail=C10: error location {} out of bounds/off boundary", key(), loc)); }
+            if let Err(why) = truthful(&txt, s, loc) { return Err(format!("{} detail=C10: report not truthful: {}", key(), why)); }
             let again = t::pairs::$name::try_parse_partial(s).err().map(|e| format!("{}", e));
             if again.as_deref() != Some(txt.as_str()) { return Err(format!("{} detail=C10: error report differs between two runs", key())); }
         }
